@@ -115,6 +115,9 @@ pub fn roundtrip(p: &POpt, q: &QOpt, mv: &MV) -> Result<String, (String, String)
 
 /// Rendering of a minimised value for signatures.
 pub fn min_repr(min: &MV, text: &str) -> String {
+    if min.depth() > 40 {
+        return "deep-nesting".to_string();
+    }
     if min.is_composite() {
         clip(&shape(text), 16)
     } else {
@@ -509,4 +512,37 @@ fn replay(_sub: &str, case: &Json) -> Option<CaseResult> {
     let qi = case.get("q")?.as_u64()? as usize;
     let mv: MV = serde_json::from_value(case.get("value")?.clone()).ok()?;
     Some(check_case(pi, qi, &mv))
+}
+
+/// libFuzzer entry: a printer option set, a compatible parser option set, a value of their domain.
+pub fn fuzz(f: &mut FuzzIn) -> Option<CaseResult> {
+    if f.mode % 2 == 0 && f.raw.len() >= 4 {
+        // options and value decoded from the bytes
+        let pi = u16::from_le_bytes([f.raw[0], f.raw[1]]) as usize % N_POPT;
+        let p = POpt::from_index(pi);
+        let qs = compat_sets(&p);
+        if qs.is_empty() {
+            return None;
+        }
+        let q = qs[(u16::from_le_bytes([f.raw[2], f.raw[3]]) as usize * qs.len()) >> 16];
+        let cfg = ValueCfg { ident: ident_rules(&p, &q), bytes: bytes_allowed(&p), keywords: true, depth: 5, nodes: 50, branch: 5, str_max: 16 };
+        let v = f.mv(4, cfg, 5);
+        if !in_domain(&p, &q, &v) {
+            return None;
+        }
+        return Some(check_case(pi, q.index(), &v));
+    }
+    let (pi, qsel) = f.draw(&(0usize..N_POPT, any::<u16>()))?;
+    let p = POpt::from_index(pi);
+    let qs = compat_sets(&p);
+    if qs.is_empty() {
+        return None;
+    }
+    let q = qs[(qsel as usize * qs.len()) >> 16];
+    let cfg = ValueCfg { ident: ident_rules(&p, &q), bytes: bytes_allowed(&p), keywords: true, depth: 5, nodes: 50, branch: 5, str_max: 16 };
+    let v = f.draw(&g_value(cfg))?;
+    if !in_domain(&p, &q, &v) {
+        return None;
+    }
+    Some(check_case(pi, q.index(), &v))
 }
